@@ -43,7 +43,9 @@ ArgOf(fn, a) ==
   CASE fn = "WriteBasicType" -> a.v
     [] fn \in {"WriteString", "WriteFixedString", "WriteFixedStringWithPadding"} -> TextOf(a)
     [] fn \in {"WriteBasicTypeList", "WriteFixedStringList", "WriteFixedStringListWithPadding", "WriteStringList"} -> ValsOf(a)
-    [] fn = "WriteObjectList" -> IF Has(a, "count") /\ a.count > 0 THEN Rep(a.obj, a.count) ELSE a.objs
+    [] fn = "WriteObjectList" -> IF Has(a, "count") /\ a.count > 0
+                                 THEN [i \in 1..a.count |-> IF Has(a, "nilat") /\ i = a.nilat + 1 THEN NilV ELSE a.obj]
+                                 ELSE a.objs
 
 Writers == {"WriteBasicType", "WriteBasicTypeList", "WriteString", "WriteFixedString", "WriteFixedStringWithPadding",
             "WriteFixedStringList", "WriteFixedStringListWithPadding", "WriteStringList", "WriteObjectList", "Padding"}
